@@ -191,6 +191,33 @@ func cmdRun(args []string) {
 	}
 	wg.Wait()
 
+	// ---- job-level confirmation of violations that did not recur in isolation ----
+	for i, res := range results {
+		if res == nil || res.Unconfirmed == nil {
+			continue
+		}
+		out := filepath.Join(work, fmt.Sprintf("job%d-again.json", i))
+		bin := self
+		if jobs[i].Bin != "" {
+			bin = jobs[i].Bin
+		}
+		a := append(append([]string{}, jobs[i].Args...), "-out", out, "-deadline", (timeout - timeout/10).String())
+		cmd := exec.Command(bin, a...)
+		cmd.Env = append(os.Environ(), jobs[i].Env...)
+		cmd.Run()
+		var again hist.Result
+		if b, err := os.ReadFile(out); err == nil && json.Unmarshal(b, &again) == nil && again.Unconfirmed != nil &&
+			again.Unconfirmed.What == res.Unconfirmed.What && again.Unconfirmed.PathStr == res.Unconfirmed.PathStr && again.Unconfirmed.Observed == res.Unconfirmed.Observed {
+			v := res.Unconfirmed
+			v.Tags = append(v.Tags, "job-replay")
+			v.What = "[recurs at the same point whenever the whole job is re-run in a fresh process, but not when this history is executed on fresh trees in isolation: the outcome depends on what other trees did earlier in the process, i.e. on state shared between trees] " + v.What
+			res.Violations = append(res.Violations, v)
+			res.Unconfirmed = nil
+			res.HarnessErr = ""
+			errs[i] = ""
+		}
+	}
+
 	// ---- merge ----
 	type perJob struct {
 		Name        string  `json:"job"`
